@@ -50,7 +50,7 @@ Theorem C06_operation_refines_climb : forall glue body valuef (qs : list nat) (l
 Proof. exact op_loop_climb. Qed.
 
 (* Instantiated for every expression over numbers, percentages, + - * / ^ **, casts `to <unit word>`, parentheses and function
-   calls f(e1, ..., en) whose arguments are again such expressions -- any
+   calls f(e1, ..., en) whose arguments are again such expressions, and facts named by one or several words -- any
    number of operators, any depth of nesting, any (or no) blanks between any two tokens and at either end of the query
    ([wf_expr]: only a unit word must be set off by a blank from a following * / ^ or `to`, which would otherwise be read into
    the unit): the parser returns, for every token list of that shape, the tree in which each parenthesised group stands on its
@@ -110,6 +110,18 @@ Example C06_call_example :
   let e := Chain (Num [50%N]) (TCons [] AStar [42%N] []
              (Call [102%N] [40%N] [41%N] (AOne [] arg1 (MComma [[32%N]] [44%N] [[32%N]] (Chain (Num [51%N]) TNil) (MEnd [])))) TNil) in
   parse_root (wst [] ++ toks_expr e ++ wst []) = Some (trees_expr [] e ++ wsT []) /\ length (toks_expr e) = 12.
+Proof. split; [apply parse_expression; cbn; tauto|reflexivity]. Qed.
+
+(* a fact named by several words takes its place as one operand, and the cast applies to it: "mass of earth to g" *)
+Example C06_fact_example :
+  let e := Chain (Fact [109%N; 97%N; 115%N; 115%N] [([[32%N]], false, [111%N; 102%N]); ([[32%N]], false, [101%N; 97%N; 114%N; 116%N; 104%N])])
+             (TTo [[32%N]] [116%N; 111%N] [[32%N]] [103%N] TNil) in
+  parse_root (wst [] ++ toks_expr e ++ wst []) = Some (trees_expr [] e ++ wsT []) /\
+  trees_expr [] e = [Grammar.Node OPERATION
+     [Grammar.Node SENTENCE [Grammar.Node WORD [Tok WORD [109%N; 97%N; 115%N; 115%N]]; Tok WHITESPACE [32%N]; Grammar.Node WORD [Tok WORD [111%N; 102%N]];
+                             Tok WHITESPACE [32%N]; Grammar.Node WORD [Tok WORD [101%N; 97%N; 114%N; 116%N; 104%N]]];
+      Tok WHITESPACE [32%N]; Grammar.Node OP_CAST [Tok TO [116%N; 111%N]]; Tok WHITESPACE [32%N];
+      Grammar.Node UNIT [Grammar.Node WORD [Tok WORD [103%N]]]]].
 Proof. split; [apply parse_expression; cbn; tauto|reflexivity]. Qed.
 
 (* `to` binds loosest: "1 to m + 2" is read as 1 to (m + 2), one cast whose right side is the sum *)
